@@ -603,9 +603,12 @@ theorem connectDestroyed_life (c : Conn) (ha : c.alive = true) (hi : LifeInv { c
       cases hs : c.st <;> simp_all [destroyedWhileConnected]
     exact removeChannel_life c hd hi
 
-theorem strong_or_timer (t : Task) (h : t.strong = false) : ∃ d, t = .addDelayTimer d := by
-  cases t <;> simp_all [Task.strong, forceCloseHoldsRef, sendPieceHoldsRef, startReadHoldsRef, stopReadHoldsRef,
-    shutdownHoldsRef, drainShutdownHoldsRef]
+/-- no functor of the connection carries the raw `this` (from the generated hand-off table:
+each holds a reference of its own or a weak one) -/
+theorem no_raw (t : Task) : t.hold ≠ .raw := by
+  cases t <;> simp only [Task.hold] <;> decide
+
+theorem connectDestroyed_strong : Task.connectDestroyed.strong = true := by decide
 
 theorem any_cons_false {t : Task} {l : List Task} (h : (t :: l).any Task.strong = false) :
     t.strong = false ∧ l.any Task.strong = false := by
@@ -650,8 +653,15 @@ theorem runTask_life (c : Conn) (t : Task) (rest : List Task) (hb : c.batch = t 
   split
   · rename_i hg
     have hns : t.strong = false := by simp at hg; exact hg.2
-    obtain ⟨d, rfl⟩ := strong_or_timer t hns
-    exact (hpop' (by simp)).frame ⟨rfl, rfl, rfl, rfl, rfl, rfl, rfl, rfl, rfl, rfl⟩
+    have hne : t ≠ .connectDestroyed := by
+      intro h; rw [h, connectDestroyed_strong] at hns; cases hns
+    split
+    · exact (hpop' hne).frame ⟨rfl, rfl, rfl, rfl, rfl, rfl, rfl, rfl, rfl, rfl⟩
+    · split
+      · exact hpop' hne
+      · rename_i _ hw
+        have hr := no_raw t
+        cases ht : t.hold <;> simp_all [Task.strong]
   · rename_i hg
     have ha : c.alive = true := by
       cases hw : c.alive with
